@@ -404,6 +404,15 @@ def explore(harness, vc_factory, opts=None):
             if e is not None:
                 import traceback as _tb
                 tb = _tb.extract_tb(e.__traceback__)
+                if tb and ("/contracts/" in tb[-1].filename or "/pyvc/" in tb[-1].filename) and not isinstance(e, AssertionError) \
+                        and not any("/resonaate/" in f.filename for f in tb[-2:]):
+                    # raised by the contract text / the engine itself, not by the code under contract: an error of this machinery (never a violation)
+                    res.errors.append(f"contract error: {type(e).__name__}: {str(e)[:160]} at {tb[-1].filename.split('/')[-1]}:{tb[-1].lineno}")
+                    res.paths += 1
+                    e = None
+            if e is not None:
+                import traceback as _tb
+                tb = _tb.extract_tb(e.__traceback__)
                 where = next((f"{f.filename.split('/')[-1]}:{f.lineno}" for f in reversed(tb) if "/resonaate/" in f.filename), "?")
                 import os as _os
                 if _os.environ.get("PYVC_DEBUG"):
